@@ -242,27 +242,21 @@ Proof.
     eapply sref_dep; [| |eassumption]; [apply store_extends_refl|reflexivity].
 Qed.
 
-Lemma run_refresh_sref : forall w, stack_ref_has_parent w -> stack_ref_has_parent (fst (run_refresh w)).
+Lemma run_refresh_sref : forall w p, stack_ref_has_parent w -> stack_ref_has_parent (fst (run_refresh w p)).
 Proof.
-  intros w H. unfold run_refresh, put.
+  intros w p H. unfold run_refresh, put.
+  destruct (match p with Some o => _ | None => _ end) as [loc_l|]; [|exact H].
   destruct (open_stack PAllow w) as [op|] eqn:Eo; [apply (fun E => open_sref _ _ _ E H) in Eo|exact H].
   destruct (negb (head_top_ok op)); [sr|].
-  destruct (last_error (s_applied (op_state op))) as [pn|]; [|sr].
+  match goal with |- stack_ref_has_parent (fst (rres_bind _ ?r _)) =>
+    destruct r as [pn| |]; cbn [rres_bind]; [|sr|sr] end.
   destruct (w_unmerged (op_world op)); [sr|].
   match goal with |- context [transact ?o ?a ?f ?m] =>
     assert (Hm : stack_ref_has_parent (fst (transact o a f m))) by sr;
     destruct (transact o a f m) as [w2 x] end.
   cbn [fst] in Hm. destruct x; try exact Hm.
   destruct (open_stack PAllow w2) as [op2|] eqn:Eo2; [apply (fun E => open_sref _ _ _ E Hm) in Eo2|exact Hm].
-  apply transact_sref; [exact Eo2|]. cbv beta.
-  set (t := begin_txn op2 _). clearbody t.
-  destruct (t_patch t pn) as [pc|]; [|exact I].
-  destruct (t_patch t _) as [tc|]; [|exact I].
-  match goal with |- frame _ (match delete_patches ?f (fst ?t1) with _ => _ end) =>
-    assert (H1 : fr t (fst t1)); [|generalize dependent t1; intros t1' H1] end.
-  { destruct (tree_eqb _ _); cbn [fst]; [apply fr_refl|]. split; [reflexivity|].
-    rewrite t_objs_set_objs. apply store_extends_put. }
-  eapply frame_fr; [exact H1|]. frame_auto.
+  apply transact_sref; [exact Eo2|]. apply frame_refresh_absorb.
 Qed.
 
 Lemma run_repair_sref : forall lower_s w,
